@@ -52,7 +52,10 @@ func (ps *PatchOp) Do(ctx ActionContext) error {
 	if ps.Value != nil {
 		oo.Value = ps.Value.Value()
 	} else if ps.ValueFrom != nil {
-		oo.Value = ctx.Data().Lookup(ctx.TemplateEngine().RenderLenient(*ps.ValueFrom, ss))
+		// use copy of source node, otherwise document would share (or even contain) node it was read from
+		if n := ctx.Data().Lookup(ctx.TemplateEngine().RenderLenient(*ps.ValueFrom, ss)); n != nil {
+			oo.Value = n.Clone()
+		}
 	}
 	if len(ps.From) > 0 {
 		from, err := patch.ParsePath(ps.From)
